@@ -50,6 +50,7 @@ func c16Exec(raw json.RawMessage) Result {
 // messages) and checks the context is one valid JSON object holding the fields the JSON encoder would emit.
 func c16Oracle(op *encOp, line []byte) Oracle {
 	c, e := op.Cfg, op.Ent
+	e = refCols(c, e) // built-in exact sub-encoders: the column texts of the independent reference (enc_oracle.go), not the observed ones
 	sep := unhx(c.Sep)
 	if len(sep) == 0 {
 		sep = []byte("\t")
